@@ -151,6 +151,30 @@ impl World {
                 }
             }
         }
+        // read_entries_after(k) (the replay reader the ingester uses) = the entries above k of the same list, for
+        // every k from 0 to one past the newest entry
+        let all: Vec<u64> = entries.iter().map(|e| e.seq).collect();
+        let top = all.last().copied().unwrap_or(0) + 1;
+        for k in 0..=top {
+            let got = match std::panic::catch_unwind(std::panic::AssertUnwindSafe(|| wal.read_entries_after(k))) {
+                Ok(Ok(e)) => e,
+                Ok(Err(e)) => return Err(Fail { sig: "C05:read-after-fails".into(), msg: format!("{when}: read_entries_after({k}) failed: {e}") }),
+                Err(_) => return Err(Fail { sig: "C05:read-after-panics".into(), msg: format!("{when}: read_entries_after({k}) panicked") }),
+            };
+            let got_seqs: Vec<u64> = got.iter().map(|e| e.seq).collect();
+            let want: Vec<u64> = all.iter().copied().filter(|s| *s > k).collect();
+            if got_seqs != want {
+                return Err(Fail {
+                    sig: "C05:read-after-disagrees-with-read-all".into(),
+                    msg: format!("{when}: read_entries_after({k}) returns {got_seqs:?}, read_entries() returns {all:?} (so {want:?} was expected)"),
+                });
+            }
+            for (a, b) in got.iter().zip(entries.iter().filter(|e| e.seq > k)) {
+                if a.batches().map(|b| b.iter().map(|b| b.num_rows()).sum::<usize>()).ok() != b.batches().map(|b| b.iter().map(|b| b.num_rows()).sum::<usize>()).ok() {
+                    return Err(Fail { sig: "C05:read-after-disagrees-with-read-all".into(), msg: format!("{when}: read_entries_after({k}) returns another payload for seq {} than read_entries()", a.seq) });
+                }
+            }
+        }
         for (s, _) in self.model.written.range(self.model.min_keep..) {
             if !seen.contains(s) {
                 return Err(Fail {
